@@ -259,7 +259,7 @@ func sliceConstExpr() *slice {
 		gen.Bin("==", gen.TI64, gen.TInt, gen.TBool), gen.Bin("+", gen.TFloat, gen.TFloat, gen.TFloat),
 	}
 	return &slice{name: "constexpr", g: gen.NewGrammar(rules),
-		tops:  []gen.NT{nt(gen.TBool), nt(gen.TInt), nt(gen.TFloat), nt(gen.TStr), nt(gen.TIntArr), nt(gen.TI64), nt(gen.TAny), nt(gen.TAnyArr)},
+		tops:  []gen.NT{nt(gen.TBool), nt(gen.TInt), nt(gen.TFloat), nt(gen.TStr), nt(gen.TIntArr), nt(gen.TI64), nt(gen.TAny), nt(gen.TAnyArr), nt(gen.TF32)},
 		modes: []lib.Mode{{Env: "struct"}, {Env: "map"}},
 		maxN:  map[string]int{"quick": 5, "thorough": 6}}
 }
